@@ -271,6 +271,69 @@ fn judge_stream(t: &mut Tally, bytes: &[u8], src: F, docs: &[V], to: F, d: usize
 	}
 }
 
+/// One command-line invocation over several input files in different formats: stdout must be the
+/// concatenation of the single-file translations.
+fn cli_part(thorough: bool) -> Tally {
+	use crate::proc::{self, Exit, Spawn, WorkDir};
+	proc::assert_bins();
+	let w = WorkDir::new("c03");
+	let m = V::map(vec![("a", V::Int(1)), ("b", V::Arr(vec![V::Bool(true), V::s("x")]))]);
+	let files: Vec<(&str, F, Vec<V>)> = vec![
+		("one.json", F::Json, vec![m.clone()]),
+		("multi.json", F::Json, vec![V::Arr(vec![V::Int(1)]), V::s("two"), m.clone()]),
+		("one.yaml", F::Yaml, vec![V::map(vec![("y", V::Int(2))])]),
+		("multi.yml", F::Yaml, vec![V::Arr(vec![V::s("p")]), V::Int(3)]),
+		("one.msgpack", F::Msgpack, vec![V::map(vec![("m", V::Null)])]),
+		("multi.msgpack", F::Msgpack, vec![V::Arr(vec![]), V::Bool(false)]),
+		("one.toml", F::Toml, vec![V::map(vec![("t", V::map(vec![("k", V::s("v"))]))])]),
+		("noext-json", F::Json, vec![V::Arr(vec![V::Int(9)])]),
+	];
+	for (name, f, docs) in &files {
+		w.write(name, &spell_stream(*f, docs, Style(0), 0).unwrap());
+	}
+	let mut lists: Vec<Vec<usize>> = vec![];
+	for i in 0..files.len() {
+		lists.push(vec![i]);
+		for j in 0..files.len() {
+			lists.push(vec![i, j]);
+			for k in 0..files.len() {
+				if thorough || (i + j + k) % 3 == 0 {
+					lists.push(vec![i, j, k]);
+				}
+			}
+		}
+	}
+	let dir = w.path().to_path_buf();
+	let ts = par_fold(&lists, Tally::default, |t, idx, list| {
+		for to in F::STREAMING {
+			let mut args: Vec<String> = vec![format!("-t{}", to.letter())];
+			args.extend(list.iter().map(|&i| files[i].0.to_string()));
+			let argv: Vec<&str> = args.iter().map(String::as_str).collect();
+			let mut sp = Spawn::new(&dir, &argv);
+			sp.release = idx % 2 == 0;
+			let o = proc::run(&sp);
+			t.evaluations += 1;
+			t.count("cli:file-lists");
+			let mut expected = vec![];
+			let mut ok = true;
+			for &i in list {
+				match reference_for(&files[i].2, to) {
+					Some(refs) => expected.extend(refs.concat()),
+					None => ok = false,
+				}
+			}
+			if !ok {
+				continue;
+			}
+			if o.exit != Exit::Code(0) || o.stdout != expected {
+				t.bad(format!("cli-concatenation-differs:{}", to.name()), json!({"kind": "cli-list", "argv": argv}),
+					format!("xt {argv:?}: {} | expected concatenation {}", o.brief(), show(&expected)));
+			}
+		}
+	});
+	Tally::merge_all(ts)
+}
+
 pub fn run(ctx: &Ctx) -> CheckOutput {
 	let thorough = ctx.thorough();
 	// ---- (H) histories
@@ -350,13 +413,14 @@ pub fn run(ctx: &Ctx) -> CheckOutput {
 	});
 	let mut tally = Tally::merge_all(th);
 	tally.merge(Tally::merge_all(ti));
+	tally.merge(cli_part(thorough));
 	tally.states += hists.len() as u64;
 	let req = |k: &str| (k.to_string(), *tally.counters.get(k).unwrap_or(&0));
-	let required = vec![req("histories:len1"), req("histories:len2"), req("histories:len3"), req("streams")];
+	let required = vec![req("histories:len1"), req("histories:len2"), req("histories:len3"), req("streams"), req("cli:file-lists")];
 	CheckOutput {
 		level: "model_checking",
 		tally,
-		rule: format!("(H) input alphabet of {} inputs (JSON/YAML/MessagePack streams of 0,1,2,3,4 documents incl. an 8 KiB-class map, several separator styles, slice/reader, named/detected; TOML single documents; one failing input per format); all histories of 1 and 2 calls{} on ONE Translator per streaming target; oracle: output == concatenation of the translations of each document alone by a fresh translator (prefix of it when a call fails), and the harness's own reader of the target recovers exactly those N documents. (I) N-document streams (N up to 1000) and streams whose first document ends at every offset around 8192/16384/24576, x separators x 3 targets x explicit/detected, slice and reader under two default policies and all schedules with <= {} deviation(s) cut at document boundaries +-1.", alpha.len(), if thorough { " and all of 3 calls" } else { " and a fixed third of the 3-call histories" }, d),
+		rule: format!("(H) input alphabet of {} inputs (JSON/YAML/MessagePack streams of 0,1,2,3,4 documents incl. an 8 KiB-class map, several separator styles, slice/reader, named/detected; TOML single documents; one failing input per format); all histories of 1 and 2 calls{} on ONE Translator per streaming target; oracle: output == concatenation of the translations of each document alone by a fresh translator (prefix of it when a call fails), and the harness's own reader of the target recovers exactly those N documents. (I) N-document streams (N up to 1000) and streams whose first document ends at every offset around 8192/16384/24576, x separators x 3 targets x explicit/detected, slice and reader under two default policies and all schedules with <= {} deviation(s) cut at document boundaries +-1. (CLI) every list of 1-3 files over 8 files of mixed formats (single and multi-document, extension-less) through the real binary: stdout == concatenation of the per-document translations.", alpha.len(), if thorough { " and all of 3 calls" } else { " and a fixed third of the 3-call histories" }, d),
 		exhaustive: thorough,
 		bounds: json!({"history_depth": if thorough { 3 } else { 2 }, "alphabet": alpha.len(), "deviations": d}),
 		assumptions: vec!["the reference for a document is xt's own translation of that document alone (the structure run sequentially); absolute fidelity is C01's job".into()],
